@@ -5,6 +5,7 @@ package gpurequesthandler
 
 import (
 	"fmt"
+	"math"
 	"strconv"
 
 	v1 "k8s.io/api/core/v1"
@@ -65,8 +66,9 @@ func validateMemoryAnnotation(hasGpuMemoryAnnotation bool, gpuMemoryFromAnnotati
 	if !hasGpuMemoryAnnotation {
 		return nil
 	}
-	gpuMemory, err := strconv.ParseUint(gpuMemoryFromAnnotation, 10, 64)
-	if err != nil || gpuMemory == 0 {
+	// The scheduler and the binder read this value as a signed 64-bit integer.
+	gpuMemory, err := strconv.ParseInt(gpuMemoryFromAnnotation, 10, 64)
+	if err != nil || gpuMemory <= 0 {
 		return fmt.Errorf("gpu-memory annotation value must be a positive integer greater than 0")
 	}
 	return nil
@@ -82,6 +84,11 @@ func validateGpuFractionAnnotation(hasGpuFractionAnnotation bool, gpuFractionFro
 		return fmt.Errorf(
 			"gpu-fraction annotation value must be a positive number smaller than 1.0")
 	}
+	// GPU portions are handled with a resolution of two decimals: a smaller value would be scheduled as zero GPUs.
+	if math.Round(gpuFraction*100) < 1 {
+		return fmt.Errorf(
+			"gpu-fraction annotation value must be at least 0.01")
+	}
 	return nil
 }
 
@@ -89,8 +96,9 @@ func validateMultiFractionRequest(hasGpuFractionsCount bool, gpuFractionsCountFr
 	if !hasGpuFractionsCount {
 		return nil
 	}
-	fractionsCount, err := strconv.ParseUint(gpuFractionsCountFromAnnotation, 10, 64)
-	if err != nil || fractionsCount == 0 {
+	// The scheduler and the binder read this value as a signed integer; 32 bits keep portion*count within range.
+	fractionsCount, err := strconv.ParseInt(gpuFractionsCountFromAnnotation, 10, 32)
+	if err != nil || fractionsCount <= 0 {
 		return fmt.Errorf("fraction count annotation value must be a positive integer greater than 0")
 	}
 	return nil
